@@ -195,6 +195,11 @@ def run(case) -> dict:
         return run_seq(case)
     if case[0] == "threads":
         return run_threads(case)
+    if case[0] == "fresh":
+        v = common.run_case_fresh("C18", case[1])
+        if v:
+            v = {"sig": v["sig"] + "/new-process", "detail": "first lookups of a new process: " + v["detail"]}
+        return {"viol": v, "digest": "fresh:" + (v["sig"] if v else "ok"), "key": common.key_hash(case), "fired": {}, "probes": {"first_lookups_from_threads_in_new_process": 1}, "vtime_ns": 0}
     kind, fl, seed = case[0], case[1], case[2]
     rng = random.Random(seed)
     world = W.World(seed)
@@ -302,7 +307,7 @@ class C18(common.Check):
             "tower with a TCP floor; error status or no TCP floor must raise without dialling; the reply's lookup handle is NULL or live (the mapper then answers every further request the same way); the Response PDU's advisory alloc_hint is exact, zero or smaller than the stub; the reply arrives whole, in PRNG segments, after a pause of 10 ms .. 40 s, in three segments with a wall-clock step of +61 s .. +400 d / -1 h in between, or complete and followed at once by a connection reset; the hint is exact, "
             "zero or smaller than the stub; sequences of lookups in one process whose answers change; 2..3 caller threads looking the endpoint "
             "up at the same time (sync API, deterministic thread scheduler, segmented replies) while the mapper announces a different port "
-            "to each: every announced port must be dialled exactly once. Hostile: many towers with tiny declared lengths whose floor counts "
+            "to each: every announced port must be dialled exactly once (also as the first lookups of a new interpreter, one child process per case). Hostile: many towers with tiny declared lengths whose floor counts "
             "reach to the end of the reply; tower / max / actual counts and tower "
             "lengths rewritten to {2^16..2^64-1} over short bodies, floor counts 0xFFFF, floor lengths past the end, truncation at every "
             "offset, zeros, PRNG bytes: traced lines <= 60000+300*(len+500), address-space growth <= 64MiB+4000*len. Non-trivial = every case; "
@@ -311,7 +316,7 @@ class C18(common.Check):
                   "endpoint mapper": "Byzantine scripted peer / reference encoder (ref.rpce)", "network seam": "simulated: the dialled port is an observation",
                   "budgets": "sys.settrace line counter (dpapi_ng frames) and address-space high-water mark"}
     assumptions = ["budgets are affine in the reply length with constants > 20x the maximum observed on well-formed replies"]
-    required_fired = ("port_expected", "must_raise", "kind_hostile", "kind_trunc", "kind_seq", "seq_error_after_success", "hostile_actual", "hostile_floor-count", "hostile_tower-len", "hostile_overlap", "kind_threads", "thread_overlap", "alloc_hint_short", "delivery_segments", "delivery_pause", "delivery_reset_after_reply", "delivery_clock_step", "live_lookup_handle", "live_lookup_handle_without_tcp_floor")
+    required_fired = ("port_expected", "must_raise", "kind_hostile", "kind_trunc", "kind_seq", "seq_error_after_success", "hostile_actual", "hostile_floor-count", "hostile_tower-len", "hostile_overlap", "kind_threads", "thread_overlap", "alloc_hint_short", "delivery_segments", "delivery_pause", "delivery_reset_after_reply", "delivery_clock_step", "first_lookups_from_threads_in_new_process", "live_lookup_handle", "live_lookup_handle_without_tcp_floor")
 
     def cases(self, tier, seed):
         rng = prng.stream(seed, "C18")
@@ -330,6 +335,13 @@ class C18(common.Check):
             # (single pre-emptions at PRNG-chosen lines as well: a check-then-use on shared state has no write to mark the window)
             pol = threadpure.policy_for(k) if k % 3 == 0 else ({"mode": "points", "n": 1 + k % 2, "horizon": (150, 400, 900, 2500)[k % 4]} if k % 3 == 1 else {"mode": "marks", "q": (0.1, 0.3, 0.7, 1.0)[(k // 3) % 4], "p": (0.0, 0.02)[(k // 12) % 2]})
             out.append(["threads", rng.getrandbits(30), 2 + k % 2, pol])
+        # ... and as the first lookups a new interpreter makes (one child process per case)
+        for k in range(96 if tier == "quick" else 3000):
+            pol = {"mode": "marks", "q": (0.2, 0.4, 0.7, 1.0)[k % 4], "p": (0.0, 0.02, 0.1)[(k // 4) % 3]} if k % 4 else {"mode": "prob", "p": (0.05, 0.3)[(k // 4) % 2]}
+            if k % 2:
+                pol = {"mode": "marks", "q": (0.1, 0.2, 0.3, 0.45)[(k // 2) % 4], "p": 0.0, "hold": (14, 40, 80)[(k // 8) % 3]}
+                pol["kinds"] = "shared"  # (only at process-wide state: the second thread catches up with the first inside whatever is built on first use)
+            out.append(["fresh", ["threads", rng.getrandbits(30), 2 + k % 2, pol]])
         for s in range(6 if tier == "quick" else 60):
             sd_ = rng.getrandbits(30)
             for k in range(0, 600):
@@ -342,6 +354,8 @@ class C18(common.Check):
     def warmup(self, cases):
         seen = set()
         for c in cases:
+            if c[0] == "fresh":
+                continue  # (runs in a child interpreter: nothing to warm up here)
             k = (c[0], c[1]) if isinstance(c, (list, tuple)) and len(c) > 1 else None
             if k not in seen:
                 seen.add(k)
@@ -359,10 +373,14 @@ class C18(common.Check):
         if case[0] == "threads":
             yield from self.shrink_threads(case)
             return
+        if case[0] == "fresh":
+            return
         if case[1] == "async":
             yield [case[0], "sync"] + case[2:]
 
     def sample_repr(self, case, res):
+        if case[0] == "fresh":
+            return {"kind": "first lookups of a new process from caller threads", "case": case[1]}
         return {"kind": case[0], "flavour": case[1], "seed": case[2], "extra": case[3:]}
 
 
